@@ -98,6 +98,11 @@ class GridRng:
         raise StubMismatch(f'Generator.{name} requested')
 
 
+class DecoderFailure(Exception):
+    """The third-party / library decoder itself raised: not an input of C11 (decoders are a
+    parameter of the property; their own validity is C05)."""
+
+
 class SpyDecoder:
     """Wraps a decoder, records (syndrome, correction) of every decode call."""
 
